@@ -85,6 +85,7 @@ struct Case {
     qint64 timeMs = 1704067200123LL;
     std::string desc;
     QString preFmt;      // non-null: a formatter upstream has already given the message a formatted text
+    SentryFormatter *fmt = nullptr;   // a formatter constructed with other arguments than the defaults
 };
 
 std::string hex(const QByteArray &b) { return b.toHex().toStdString(); }
@@ -112,11 +113,16 @@ void run(const Case &c, const char *mode)   // mode: "jc" "ji" "s"
     LogMessage m(TYPES[c.type], ctx, c.msg);
     for (auto &a : c.attrs) m.setAttribute(a.first, a.second.v);
     if (!c.preFmt.isNull()) m.setFormattedMessage(c.preFmt);
-    QString out = mode[0] == 's' ? fSentry->format(m) : (mode[1] == 'c' ? fCompact : fIndent)->format(m);
+    QString out = mode[0] == 's' ? (c.fmt ? c.fmt : fSentry)->format(m) : (mode[1] == 'c' ? fCompact : fIndent)->format(m);
     sum.cases++; sum.transitions++;
     sum.counters[std::string("cases_") + mode]++;
     QByteArray u = out.toUtf8();
     if (QString::fromUtf8(u) != out) sum.counters["output_not_roundtripping_utf8"]++;
+    {   // digest for the dual build of C20: the output without the fields that differ from process to process
+        static const QRegularExpression vol(QStringLiteral("\"(event_id|threadId|thread_id)\":\\s*(\"[^\"]*\"|[0-9.e+]+)"));
+        QString n = out; n.replace(vol, QStringLiteral("\"\\1\":0"));
+        sum.digestAdd(std::string(mode) + "|" + c.desc + "|" + vx::jesc(c.msg) + "=>" + n.toStdString());
+    }
     printf("C\t{\"mode\":\"%s\",%s}\t%s\n", mode, metaCommon(c).c_str(), hex(u).c_str());
 }
 
@@ -266,6 +272,18 @@ void sentrySpace(int len)
     for (qint64 b : bases) for (qint64 off : { -1001LL, -1000LL, -999LL, -1LL, 0LL, 1LL, 499LL, 500LL, 999LL, 1000LL, 59999LL, 86399999LL }) {
         if (b + off < 0) continue;
         Case c; c.desc = "clock boundary"; c.timeMs = b + off; c.msg = QStringLiteral("t"); c.type = int((b + off) % 5); run(c, "s");
+    }
+    // G: formatter objects constructed with non-default SDK name / version (empty ones included)
+    {
+        const QString names[] = { QStringLiteral("qtlogger.sentry"), QStringLiteral(""), QStringLiteral("my.sdk"), QStringLiteral("q\"\\") };
+        const QString vers[] = { QStringLiteral("1.0.0"), QStringLiteral(""), QStringLiteral("2"), QString() };
+        static std::vector<SentryFormatter *> keep;
+        for (auto &n : names) for (auto &v : vers) {
+            auto *f = new SentryFormatter(n, v); keep.push_back(f);
+            for (int ty = 0; ty < 5; ty += 2) { Case c; c.desc = "formatter constructed with sdk name/version"; c.type = ty; c.msg = QStringLiteral("sdk"); c.fmt = f; run(c, "s"); }
+        }
+        auto *d = new SentryFormatter(); keep.push_back(d);
+        Case c; c.desc = "default-constructed formatter"; c.msg = QStringLiteral("sdk"); c.fmt = d; run(c, "s");
     }
     // F: a burst of identical messages (ids must still differ)
     for (int i = 0; i < 2000; i++) { Case c; c.desc = "burst of identical messages"; c.msg = QStringLiteral("same"); run(c, "s"); }
